@@ -6,7 +6,7 @@ import subprocess
 import sys
 from fractions import Fraction
 
-from extract import c07_tables
+from extract import c07_numeric, c07_tables
 from harness import c07_gen as G
 from harness import c07_real as real
 from harness import docs
@@ -18,11 +18,10 @@ enc = real.enc
 BASE_URL = real.BASE_URL
 
 # Crashes of the unchanged tree that are listed in known_findings.txt: (exception class, innermost function).
+# (The four that were listed — RecursionError in resolve_var, TypeError in __missing__, IndexError in the src and
+# system descriptors — were repaired by 2bffab3, 582f36b, be7a07b, d71ddd0: any such crash is a violation again.)
 KNOWN_CRASHES = {
-    ('RecursionError', 'resolve_var'): 'var-self-cycle-recursion',
-    ('TypeError', '__missing__'): 'var-inherit-on-root-typeerror',
-    ('IndexError', 'src'): 'font-face-src-format-indexerror',
-    ('IndexError', 'system'): 'counter-style-system-empty-indexerror',
+    ('ZeroDivisionError', 'get_intrinsic_size'): 'image-resolution-zero-division',
 }
 FUEL = 120
 
@@ -30,8 +29,6 @@ FUEL = 120
 def known_crash(exc):
     if exc is None:
         return None
-    if isinstance(exc, RecursionError):
-        return 'var-self-cycle-recursion'
     return KNOWN_CRASHES.get(real.innermost(exc))
 
 
@@ -648,7 +645,7 @@ def sec_more_expanders(run):
                 factor = properties.flex_grow_shrink([t])
                 if factor is not None and not math.isfinite(factor):
                     return None       # 1e999: an infinite flex factor has no rational model
-                wire.append([t.type == 'number' and t.int_value == 0, properties.flex_basis([t]) is not None,
+                wire.append([t.type == 'number' and t.value == 0, properties.flex_basis([t]) is not None,
                              Fraction(factor) if factor is not None else None, f't{i}'])
             return sx.line('flex', 'flex', head_atom(tokens), utils.get_single_keyword(tokens) == 'none', wire, table)
         modelled_raw_case(sec, run, 'flex', 'flex', tokens, build, intern, vid=flex_vid)
@@ -865,8 +862,8 @@ def sec_pending_expander(run):
     _, utils, _, expanders, properties = real.mods()
     sec = run.section('pending-expander', 'every shorthand with var(): the real PendingExpander.validate of each '
                       'longhand on substituted tokens vs the model fed with the items of the real registered expander '
-                      '(lazy iteration: first match wins); non-trivial = the substituted value is invalid for some '
-                      'longhand but not for all')
+                      '(the whole expansion is consumed first: a failure anywhere refuses every longhand); '
+                      'non-trivial = the expansion of the substituted value fails after yielding an item')
     intern = real.Interner()
     var_tokens = tuple(tokens_of('var(--v)'))
     for key in sorted(expanders.EXPANDERS):
@@ -892,9 +889,11 @@ def sec_pending_expander(run):
                 wire_items = [[enc(k), intern(v)] for k, v in items]
                 sec.add(sx.line('pending-expander', enc(pend.validator.keywords['name']), enc(long_name), wire_items,
                                 end or 'none'), impl, meta={'key': key, 'css': text, 'longhand': long_name},
-                        nontrivial=False, tags=[impl.split(' ')[0]])
+                        nontrivial=bool(items) and end is not None, tags=[impl.split(' ')[0]])
             if outcomes and any(o.startswith('ok') for o in outcomes) and any(o == 'invalid' for o in outcomes):
-                sec.tags['partially-applied'] += 1
+                sec.tags['partially-applied'] += 1      # must stay 0 (fix: f9155ce); the model refuses all or none
+            if outcomes and all(o == 'invalid' for o in outcomes):
+                sec.tags['all-refused'] += 1
 
 
 
@@ -1242,6 +1241,149 @@ def sec_pending(run):
     run.extra['pending_known'] = known
 
 
+# ----------------------------------------------- Pending.solve: one object per declaration, many elements
+
+SOLVE_SHORTHANDS = ['margin', 'padding', 'border-width', 'border', 'outline', 'list-style', 'columns', 'flex',
+                    'border-radius', 'font', 'text-decoration', 'gap', 'flex-flow', 'border-color']
+
+
+def pending_objects(name):
+    """[(longhand name, the real Pending object the funnel builds for `name: var(--v)`)]"""
+    from weasyprint.css.utils import Pending
+    return [(n.replace('_', '-'), v) for n, (v, _) in cascaded_from(f'{name}: var(--v)').items()
+            if isinstance(v, Pending)]
+
+
+class WarningCounter:
+    """Counts the records the weasyprint logger emits inside the block (the harness keeps it quiet otherwise)."""
+
+    def __enter__(self):
+        import logging
+        self.logger = logging.getLogger('weasyprint')
+        self.level = self.logger.level
+        self.count = 0
+        counter = self
+
+        class Handler(logging.Handler):
+            def emit(self, record):
+                counter.count += 1
+        self.handler = Handler()
+        self.logger.addHandler(self.handler)
+        self.logger.setLevel(logging.WARNING)
+        return self
+
+    def __exit__(self, *exc):
+        self.logger.removeHandler(self.handler)
+        self.logger.setLevel(self.level)
+
+
+def solve_call(pend, tokens, longhand, intern):
+    with WarningCounter() as w:
+        try:
+            out = f'ok:{intern(pend.solve(list(tokens), longhand))}'
+        except Exception as exc:  # noqa: BLE001
+            out = real.fail_atom(exc)
+    return out, w.count
+
+
+def solve_sequence(name, texts, intern):
+    """Calls `solve` of the Pending object(s) of `name: var(--v)` on the token lists of `texts`, in order, the way
+    ComputedStyle does for successive elements (every longhand for each element).
+    -> [(longhand, text, shared outcome, warnings, outcome of `validate` alone on these tokens)]"""
+    rows = []
+    for text in texts:
+        tokens = tuple(tokens_of(text))
+        for longhand, pend in SOLVE_OBJECTS:
+            try:
+                alone = f'ok:{intern(pend.validate(list(tokens), longhand))}' if tokens else 'empty'
+            except Exception as exc:  # noqa: BLE001
+                alone = real.fail_atom(exc)
+            out, warnings = solve_call(pend, tokens, longhand, intern)
+            rows.append((longhand, text, out, warnings, alone))
+    return rows
+
+
+SOLVE_OBJECTS = []
+
+
+def sec_pending_solve(run):
+    from weasyprint.css.properties import INITIAL_VALUES
+    _, _, _, expanders, properties = real.mods()
+    sec = run.section('pending-solve', 'the real Pending object the funnel builds for `name: var(--v)` (every longhand '
+                      'with a valid / invalid sample, and shorthands), solved 2..5 times in a row on different '
+                      'substituted token lists (valid, invalid, empty) as ComputedStyle does for the successive '
+                      'elements a rule matches: outcome and number of warnings of every call vs the model state '
+                      'machine fed with the answer of `validate` alone; non-trivial = a valid value is solved after an '
+                      'invalid one')
+    intern = real.Interner()
+    names = [n for n in sorted(properties.PROPERTIES) if n.replace('-', '_') in INITIAL_VALUES]
+    run.rng.shuffle(names)
+    chosen = names[:run.n(50, len(names))] + SOLVE_SHORTHANDS
+    for name in chosen:
+        if name in expanders.EXPANDERS:
+            valid_pool = [G.value_text(run.rng, name, 'own') for _ in range(4)]
+            invalid_pool = [G.value_text(run.rng, name, run.rng.choice(['other', 'soup'])) for _ in range(3)]
+        else:
+            try:
+                valid, invalid = pending_samples(name)
+            except Exception:  # noqa: BLE001
+                continue
+            if valid is None or invalid is None:
+                continue
+            valid_pool = [valid] + [a for a in G.accepted_singles(name)[:6] if 'var(' not in a]
+            invalid_pool = [invalid, '"x" 3deg', '!']
+        for _ in range(run.n(3, 12)):
+            global SOLVE_OBJECTS
+            try:
+                SOLVE_OBJECTS = pending_objects(name)
+            except Exception:  # noqa: BLE001 - reported by the funnel section
+                continue
+            if not SOLVE_OBJECTS:
+                continue
+            texts = []
+            for _ in range(run.rng.choice([2, 3, 3, 4, 5])):
+                r = run.rng.random()
+                texts.append(run.rng.choice(valid_pool) if r < 0.55 else run.rng.choice(invalid_pool) if r < 0.9 else '')
+            texts = [t for t in texts if 'var(' not in t.lower()]
+            rows = solve_sequence(name, texts, intern)
+            # one protocol line per Pending object (a shorthand shares one object between its longhands)
+            by_object = {}
+            for longhand, pend in SOLVE_OBJECTS:
+                by_object.setdefault(id(pend), []).append(longhand)
+            for longhands in by_object.values():
+                mine = [r for r in rows if r[0] in longhands]
+                calls = [[alone == 'empty', 'invalid' if alone == 'empty' else
+                          (['ok', alone[3:]] if alone.startswith('ok:') else alone)] for _, _, _, _, alone in mine]
+                impl = ' '.join(f'{out}/{"w" if warnings else "-"}' for _, _, out, warnings, _ in mine)
+                seen_invalid, after = False, False
+                for _, _, _, _, alone in mine:
+                    after = after or (seen_invalid and alone.startswith('ok:'))
+                    seen_invalid = seen_invalid or alone in ('invalid', 'empty')
+                sec.add(sx.line('pending-solve', calls), impl,
+                        meta={'name': name, 'texts': texts, 'longhands': longhands}, nontrivial=after,
+                        tags=['valid-after-invalid' if after else 'other', 'shorthand' if len(longhands) > 1 else
+                              'longhand', *(['warned'] if '/w' in impl else [])])
+
+
+def judge_pending_solve(meta):
+    """The clause on the real object: what an element gets out of `name: var(--v)` depends on its own substituted
+    value only — each call of the shared Pending object answers like a fresh object does."""
+    global SOLVE_OBJECTS
+    intern = real.Interner()
+    SOLVE_OBJECTS = pending_objects(meta['name'])
+    shared = solve_sequence(meta['name'], meta['texts'], intern)
+    for i, (longhand, text, out, _, _) in enumerate(shared):
+        fresh = dict(pending_objects(meta['name']))[longhand]
+        alone, _ = solve_call(fresh, tuple(tokens_of(text)), longhand, intern)
+        if out != alone:
+            earlier = [t for _, t, _, _, _ in shared[:i]]
+            return (f'`{meta["name"]}: var(--v)` shared by several elements: with `--v: {text}` the longhand '
+                    f'{longhand} is {"refused" if out == "invalid" else out} after the rule was applied to elements '
+                    f'with --v = {sorted(set(earlier))}, but {alone} on a fresh object: var() is not the textual '
+                    f'substitution of each element\'s own value (an invalid value on one element changes others)')
+    return None
+
+
 def judge_pending(meta):
     """var() = textual substitution at computed-value level: `name: var(--v)` with `--v: T` computes like
     `name: T`; an invalid T leaves the property as if the declaration were absent."""
@@ -1257,8 +1399,6 @@ def judge_pending(meta):
                 a, exc = style_value(style_pair(f'{name}: {meta["valid"]}', var_css)[1], key)
                 b, _ = style_value(style_pair(f'{name}: {meta["valid"]}', lit_css)[1], key)
                 where = f'in a child of an element with {name}: {meta["valid"]}'
-            if subject_is_root and text == 'inherit' and a == 'err:TypeError':
-                continue     # known finding var-inherit-on-root-typeerror
             if a != b:
                 return (f'`{name}: var(--v)` with `--v: {text}` computes to {a} {where}, the textual substitution '
                         f'`{name}: {text}` computes to {b}')
@@ -1283,7 +1423,8 @@ def sec_descriptors(run):
         'font-style': ['normal', 'italic', 'oblique'], 'font-weight': ['normal', 'bold', '400', '1000'],
         'font-stretch': ['condensed', 'normal'], 'font-feature-settings': ['"liga" 1', 'normal', '"ab"'],
         'font-variant': ['normal', 'none', 'small-caps', 'small-caps oldstyle-nums', 'normal small-caps'],
-        'unicode-range': ['U+26', 'U+0-7F', 'U+4??'], 'system': ['cyclic', 'fixed 3', 'extends decimal', 'additive'],
+        'unicode-range': ['U+26', 'U+0-7F', 'U+4??'], 'system': ['cyclic', 'fixed 3', 'extends decimal', 'additive', '',
+                                                                 'fixed', 'extends', 'fixed 1 2', 'symbolic'],
         'negative': ['"-"', '"(" ")"'], 'prefix': ['"a"', 'url(x)'], 'suffix': ['"."'], 'range': ['auto', '1 5', 'infinite 3',
                                                                                                '5 1'],
         'pad': ['3 "0"', '"0" 3', '-1 "0"'], 'fallback': ['decimal', 'none'], 'symbols': ['"a" "b"', 'a b', 'url(x)'],
@@ -1319,12 +1460,12 @@ def sec_descriptors(run):
             items = []
             for d in decls:
                 if d.type != 'declaration':
-                    items.append([d.type, 'x', False, 'none'])
+                    items.append([d.type, 'x', False, False, 'none'])
                     continue
                 res = 'none'
                 function = descriptors.DESCRIPTORS[rule].get(d.name)
-                if function is not None:
-                    tokens = utils.remove_whitespace(d.value)
+                tokens = utils.remove_whitespace(d.value)
+                if function is not None and tokens:       # the funnel never calls a validator on an empty value
                     try:
                         value = function(tokens, BASE_URL) if function.wants_base_url else function(tokens)
                         res = ['ok', intern(value)] if value is not None else 'none'
@@ -1332,7 +1473,7 @@ def sec_descriptors(run):
                         res = 'invalid'
                     except Exception:  # noqa: BLE001 - the model assumes this never happens
                         res = 'err:AssumptionBroken'
-                items.append(['declaration', enc(d.name), bool(d.important), res])
+                items.append(['declaration', enc(d.name), bool(d.important), not tokens, res])
             sec.add(sx.line('descriptors', enc(rule), items), impl, meta={'rule': rule, 'css': text},
                     nontrivial=impl.count('(') > 0 and len(items) > impl.count('('),
                     tags=[rule, 'raised' if impl.startswith('err') else 'kept' if '(' in impl else 'all-dropped'])
@@ -1428,6 +1569,151 @@ def sec_keywords(run):
         'properties_registered': len(properties.PROPERTIES),
         'not_mirrored_functions': [f for f, _, _, _, m in inventory if not m][:100],
     }
+
+
+# --------------------------------------------------------------------------------- numeric validators
+
+# Independent reference (the CSS specifications, not the source): which single numbers a property takes.
+#   kind: 'integer' | 'number'; lo: inclusive lower bound or None; keywords; lengths: also takes a <length>
+CSS_NUMERIC_SPEC = {
+    'orphans': ('integer', 1, (), 'css-break-3 §3.3: <integer [1,∞]>; zero and negative values are invalid'),
+    'widows': ('integer', 1, (), 'css-break-3 §3.3: <integer [1,∞]>; zero and negative values are invalid'),
+    'column-count': ('integer', 1, ('auto',), 'css-multicol-1 §3.2: auto | <integer [1,∞]>'),
+    'max-lines': ('integer', 1, ('none',), 'css-overflow-4: none | <integer [1,∞]>'),
+    'bookmark-level': ('integer', 1, ('none',), 'css-gcpm-3 §6.1: none | <integer [1,∞]>'),
+    'tab-size': ('number', 0, (), 'css-text-3 §4.2: <number [0,∞]> | <length [0,∞]>'),
+    'z-index': ('integer', None, ('auto',), 'CSS 2.1 §9.9.1: auto | <integer>'),
+    'order': ('integer', None, (), 'css-flexbox-1 §5.4: <integer>'),
+    'font-weight': ('number', 1, ('normal', 'bold', 'bolder', 'lighter'), 'css-fonts-4 §2.2: <number [1,1000]>'),
+    'line-height': ('number', 0, ('normal',), 'CSS 2.1 §10.8.1: negative values are illegal'),
+    'flex-grow': ('number', 0, (), 'css-flexbox-1 §7.2: <number [0,∞]>, negative values are invalid'),
+    'flex-shrink': ('number', 0, (), 'css-flexbox-1 §7.3: <number [0,∞]>, negative values are invalid'),
+}
+NUMERIC_TEXTS = ['-3', '-2', '-1', '-0', '0', '+0', '1', '+1', '2', '3', '4', '7', '12', '99', '100', '400', '450', '900',
+                 '1000', '1001', '1.5', '2.0', '0.0', '-1.5', '0.5', '1e2', '1e0', '2px', '0px', '-1px', '1.5em', '3PX',
+                 '2xx', '50%', '-5%', '0%', '150%', 'auto', 'none', 'normal', 'bold', 'bolder', 'lighter', 'foo',
+                 'AUTO', 'None', '"s"', 'calc(1)', '1 2', '1, 2', 'auto 1', '[1]']
+
+
+def ntok_wire(tok):
+    from weasyprint.css.utils import get_keyword
+    kw = get_keyword(tok)
+    return [tok.int_value if tok.type == 'number' and tok.int_value is not None else None,
+            'i:' + enc(kw) if kw is not None else 'none', ltok_wire(tok)]
+
+
+def numeric_out(value):
+    from weasyprint.css.properties import Dimension
+    if value is None:
+        return 'invalid'
+    if isinstance(value, bool):
+        return f'other:{value}'
+    if isinstance(value, int):
+        return f'int {value}'
+    if isinstance(value, float):
+        return f'num {sx.atom(Fraction(value))}' if math.isfinite(value) else 'num inf'
+    if isinstance(value, str):
+        return f'kw {enc(value)}'
+    if isinstance(value, Dimension):
+        return f'dim {sx.atom(Fraction(value.value))} {enc(value.unit) if value.unit is not None else "none"}'
+    return f'other:{real.canon(value)}'
+
+
+def sec_numeric(run):
+    """The numeric single-token validators: clause tables regenerated from the source (AST) vs the registered
+    functions."""
+    _, utils, _, _, properties = real.mods()
+    table, skipped = c07_numeric.ast_numeric_validators()
+    sec = run.section('numeric-validators', 'the numeric @single_token validators (orphans, widows, column-count, '
+                      'max-lines, bookmark-level, tab-size, z-index, order, font-weight, line-height, flex-grow, '
+                      'flex-shrink): AST-generated clause tables (bounds, keyword tuples, get_length flags) + the model '
+                      'of their if / elif / return sequence vs the registered PROPERTIES functions, on integers around '
+                      'every bound, signed zeros, non-integer and exponent spellings, dimensions, percentages, '
+                      'keywords, several tokens; exhaustive over (property, text of the fixed list) plus random '
+                      'integers; non-trivial = accepted')
+    for name, _, _ in table:
+        texts = list(NUMERIC_TEXTS)
+        for _ in range(run.n(25, 400)):
+            r = run.rng.random()
+            n = run.rng.randrange(-20, 1200)
+            texts.append(str(n) if r < 0.6 else f'{n}.{run.rng.randrange(10)}' if r < 0.75 else
+                         f'{n}{run.rng.choice(["px", "em", "%", "pt", "Q", "q", "deg"])}' if r < 0.9 else f'+{abs(n)}')
+        for text in texts:
+            tokens = tokens_of(text)
+            if not tokens or any(t.type in ('number', 'dimension', 'percentage') and not math.isfinite(t.value)
+                                 for t in tokens):
+                continue
+            try:
+                impl = numeric_out(properties.PROPERTIES[name](tokens))
+            except Exception as exc:  # noqa: BLE001
+                impl = real.fail_atom(exc)
+            sec.add(sx.line('numeric-validator', enc(name), [ntok_wire(t) for t in tokens]), impl,
+                    meta={'name': name, 'css': text}, nontrivial=impl != 'invalid',
+                    tags=[impl.split(' ')[0], f'tokens{min(len(tokens), 2)}'])
+    # get_resolution (the whole validator of image-resolution)
+    for text in ['1dppx', '2dppx', '96dpi', '300dpi', '118dpcm', '0dppx', '-1dppx', '0dpi', '-96dpi', '2DPPX', '1dpI',
+                 '1.5dppx', '1px', '2', '0', '50%', 'auto', '1x', '1e2dpi']:
+        toks = tokens_of(text)
+        if len(toks) != 1:
+            continue
+        got = utils.get_resolution(toks[0])
+        impl = 'none' if got is None else 'ok ' + ('neg' if got < 0 else 'zero' if got == 0 else 'pos') + (
+            ' exact' if Fraction(got).limit_denominator(10 ** 6) == Fraction(got) else ' near')
+        sec.add(sx.line('get-resolution', ltok_wire(toks[0]), Fraction(got) if got is not None else 0), impl,
+                meta={'name': 'image-resolution', 'css': text}, nontrivial=got is not None, tags=['resolution'])
+    run.extra['numeric_validators'] = {'properties_mirrored': [n for n, _, _ in table],
+                                       'not_mirrored': [f for f, _ in skipped]}
+
+
+def judge_numeric(name, css):
+    """The clause on the real funnel, against the CSS grammar of the property (independent of the source): a value
+    outside the range the specification gives is an invalid declaration and must be dropped; a plain integer inside
+    the range of an integer-valued property is a supported value."""
+    import tinycss2
+    from weasyprint.css.properties import Dimension
+    _, _, validation, _, _ = real.mods()
+    if name == 'image-resolution':
+        return None      # known finding image-resolution-zero-division (non-positive resolutions are accepted)
+    if name not in CSS_NUMERIC_SPEC:
+        return None
+    kind, lo, keywords, ref = CSS_NUMERIC_SPEC[name]
+    tokens = tokens_of(css)
+    try:
+        out = list(validation.preprocess_declarations(BASE_URL, tinycss2.parse_blocks_contents(f'{name}: {css}')))
+    except Exception as exc:  # noqa: BLE001
+        return f'`{name}: {css}` makes preprocess_declarations raise {type(exc).__name__}'
+    accepted = bool(out)
+    value = out[0][1] if accepted else None
+    if len(tokens) != 1:
+        if accepted:
+            return f'`{name}: {css}` is accepted as {real.canon(value)} although {name} takes a single value ({ref})'
+        return None
+    tok = tokens[0]
+    if accepted and tok.type == 'number':
+        if name in ('flex-grow', 'flex-shrink') and tok.value < 0:
+            return None      # known finding flex-negative-factor-accepted
+        if kind == 'integer' and tok.int_value is None:
+            return f'`{name}: {css}` is accepted as {real.canon(value)}: {name} takes an integer ({ref})'
+        if lo is not None and tok.value < lo:
+            return (f'`{name}: {css}` is accepted as {real.canon(value)} and overrides any earlier valid value; the '
+                    f'declaration is invalid and must be ignored ({ref})')
+        written = tok.int_value if kind == 'integer' else tok.value
+        got = value.value if isinstance(value, Dimension) else value
+        if isinstance(got, (int, float)) and not isinstance(got, bool) and got != written:
+            return f'`{name}: {css}` is accepted with the value {got!r} instead of {written!r}'
+    if accepted and tok.type == 'percentage' and name == 'line-height' and tok.value < 0:
+        return f'`{name}: {css}` is accepted although negative values are illegal ({ref})'
+    if accepted and tok.type == 'ident' and tok.lower_value not in keywords + ('inherit', 'initial'):
+        return f'`{name}: {css}` is accepted although `{css}` is not a keyword of {name} ({ref})'
+    if not accepted and kind == 'integer' and tok.type == 'number' and tok.int_value is not None \
+            and (lo is None or tok.int_value >= lo):
+        return f'`{name}: {css}` is dropped although {css} is a valid value of {name} ({ref})'
+    if not accepted and name in ('line-height', 'flex-grow', 'flex-shrink') and tok.type == 'number' \
+            and tok.value >= lo:
+        return f'`{name}: {css}` is dropped although {css} is a valid value of {name} ({ref})'
+    if not accepted and tok.type == 'ident' and tok.lower_value in keywords:
+        return f'`{name}: {css}` is dropped although `{css}` is a keyword of {name} ({ref})'
+    return None
 
 
 # --------------------------------------------------------------------------------- the rule-level funnel
@@ -1830,7 +2116,8 @@ def sec_var(run):
                     impl, exc = resolve_out(style, tok)
                     sec.add(sx.line('resolve', FUEL, env_wire, wire), impl, nontrivial=is_var,
                             meta={'env': env_texts, 'token': real.tok_text(tok)},
-                            tags=['cyclic-env' if cyclic else 'acyclic-env', impl.split(' ')[0]])
+                            tags=['cyclic-env' if cyclic else 'acyclic-env', impl.split(' ')[0],
+                                  *(['cyclic-resolved'] if cyclic and is_var and impl.startswith('ok') else [])])
     finally:
         sys.setrecursionlimit(old_limit)
 
@@ -2076,7 +2363,58 @@ def sec_docs(run):
             continue
         sec.add(sx.line('echo', want), got, meta={'kind': 'var-invalid', 'prop': prop, 'valid': valid,
                                                   'invalid': invalid, 'sel': sel}, tags=['var-invalid'])
+    # (7) one rule with var() shared by several elements whose custom property differs (valid for some, invalid for
+    #     others): element by element it is the literal declaration of the element's own value
+    for _ in range(run.n(45, 700)):
+        case = shared_var_case(rng)
+        if case is None:
+            continue
+        want, _ = render_fp(case['literal'], SHARED_BODY)
+        got, exc = render_fp(case['var'], SHARED_BODY)
+        sec.add(sx.line('echo', want), got, meta={'kind': 'var-shared', **case},
+                tags=['var-shared', *(['var-shared:valid-after-invalid'] if case['after'] else [])])
     run.extra['known_crashes_skipped_in_documents'] = known
+
+
+SHARED_BODY = '<div id=a class=t>aa</div><div id=b class=t>bb</div><div id=c class=t>cc</div><div id=d class=t>dd</div>'
+SHARED_LONGHANDS = ['width', 'height', 'padding-left', 'margin-left', 'text-indent', 'color', 'letter-spacing',
+                    'font-size', 'min-height', 'border-left-width', 'line-height', 'text-align', 'word-spacing',
+                    'margin-top', 'max-width', 'font-weight']
+SHARED_SHORTHANDS = {'margin': (['3px', '1px 2px', '4px 2px 1px'], ['7px red', 'red', '1px 2px 3px 4px 5px']),
+                     'padding': (['3px', '1px 2px'], ['7px red', '-1px']),
+                     'border-width': (['3px', 'thin thick'], ['3px red', 'solid']),
+                     'border': (['2px dotted', 'thick double red'], ['2px 3px', 'red blue'])}
+
+
+def shared_var_case(rng):
+    if rng.random() < 0.3:
+        prop = rng.choice(sorted(SHARED_SHORTHANDS))
+        valids, invalids = SHARED_SHORTHANDS[prop]
+    else:
+        prop = rng.choice(SHARED_LONGHANDS)
+        try:
+            valid, invalid = pending_samples(prop)
+        except Exception:  # noqa: BLE001
+            return None
+        if valid is None or invalid is None:
+            return None
+        valids = [valid] + [a for a in G.accepted_singles(prop)[:5] if '(' not in a and a not in ('inherit', 'initial')]
+        invalids = [invalid]
+    ids = ['a', 'b', 'c', 'd']
+    values, seen_invalid, after = {}, False, False
+    for i in ids:
+        if rng.random() < 0.45:
+            values[i] = (rng.choice(invalids), False)
+            seen_invalid = True
+        else:
+            values[i] = (rng.choice(valids), True)
+            after = after or seen_invalid
+    pre = 'border-style:solid;' if prop.startswith('border') and prop != 'border' else ''
+    base = f'body{{{prop if prop not in SHARED_SHORTHANDS else "color"}: inherit}}.t{{{pre}}}'
+    var_css = base + f'.t{{{prop}: var(--v)}}' + ''.join(f'#{i}{{--v: {v}}}' for i, (v, _) in values.items())
+    lit_css = base + ''.join(f'#{i}{{{prop}: {v}}}' for i, (v, _) in values.items())
+    return {'prop': prop, 'values': {i: v for i, (v, _) in values.items()}, 'var': var_css, 'literal': lit_css,
+            'after': after}
 
 
 def _factor(unit):
@@ -2306,16 +2644,129 @@ def replay_flex_float_zero():
     return isinstance(a, dict) and isinstance(b, dict) and a['flex-grow'] != b['flex-grow']
 
 
+def replay_flex_negative_factor():
+    """`flex-grow: 2; flex-grow: -1`: the second, invalid declaration wins (computed flex-grow -1)."""
+    got = {name: value for name, value in real_funnel_pairs('flex-grow: 2; flex-grow: -1; flex-shrink: 1; flex-shrink: -0.5')}
+    return got.get('flex_grow') == -1 or got.get('flex_shrink') == -0.5
+
+
+def real_funnel_pairs(css):
+    import tinycss2
+    from weasyprint.css.validation import preprocess_declarations
+    out = {}
+    for name, value, _ in preprocess_declarations(BASE_URL, tinycss2.parse_blocks_contents(css)):
+        out[name] = value       # the last declaration of a name wins in the cascade
+    return list(out.items())
+
+
+def replay_image_resolution_zero():
+    import base64
+    import io
+    from PIL import Image
+    buf = io.BytesIO()
+    Image.new('RGB', (20, 10), 'red').save(buf, 'PNG')
+    uri = 'data:image/png;base64,' + base64.b64encode(buf.getvalue()).decode()
+    try:
+        docs.render(f'<style>img{{image-resolution: 0dppx}}</style><img src="{uri}">')
+    except ZeroDivisionError:
+        return True
+    return False
+
+
+def replay_css_wide_as_ident():
+    got = dict(real_funnel_pairs('grid-row-start: inherit 2; grid-area: inherit / a; font-family: inherit, serif'))
+    return bool(got)
+
+
 FINDING_REPLAYS = {
-    'font-face-src-format-indexerror': lambda: render_raises(
-        '@font-face { font-family: x; src: format("woff") }', 'IndexError'),
-    'counter-style-system-empty-indexerror': lambda: render_raises('@counter-style a { system: ; }', 'IndexError'),
-    'flex-float-zero-as-basis': replay_flex_float_zero,
-    'var-shorthand-partially-applied': replay_var_shorthand_partial,
-    'var-inherit-on-root-typeerror': lambda: render_raises('html{--a:inherit;width:var(--a)}', 'TypeError'),
-    'var-self-cycle-recursion': replay_var_self_cycle,
+    'css-wide-keyword-as-ident': replay_css_wide_as_ident,
+    'image-resolution-zero-division': replay_image_resolution_zero,
     'var-fallback-commas-dropped': replay_var_fallback_commas,
+    'flex-negative-factor-accepted': replay_flex_negative_factor,
 }
+
+
+def replay_var_root_inherit():
+    """html{--a:inherit;width:var(--a)} must render, and like html{width:inherit}."""
+    a, exc = render_fp('html{--a:inherit;width:var(--a)}')
+    b, _ = render_fp('html{width:inherit}')
+    return exc is not None or a != b
+
+
+def replay_var_cycle_in_process():
+    """Cyclic custom properties of several shapes resolve (no exception) and leave the property as if absent."""
+    for css in ('.p{--a:var(--a);width:var(--a)}', '.p{--a:var(--b);--b:var(--a);width:var(--a)}',
+                '.p{--a:1px var(--a);margin-left:var(--b, var(--a))}'):
+        old = sys.getrecursionlimit()
+        sys.setrecursionlimit(max(old, 3000))
+        try:
+            _, exc = render_fp(css)
+        finally:
+            sys.setrecursionlimit(old)
+        if exc is not None:
+            return True
+    a, _ = render_fp('.p{--a:var(--a);width:var(--a)}')
+    b, _ = render_fp('.p{--a:var(--a)}')
+    return a != b
+
+
+# Repaired findings (`fixed:` lines of known_findings.txt): replayed first in every run; a defect that comes back
+# is a disagreement of the `regressions` section, judged and reported as a VIOLATION (a fixed entry suppresses
+# nothing).  id -> (replay: True when the defect is there, commit, what fails)
+REGRESSIONS = {
+    'var-self-cycle-recursion': (replay_var_cycle_in_process, '2bffab3',
+                                 'p{--a:var(--a);width:var(--a)} and longer cycles: RecursionError in resolve_var, or '
+                                 'the cyclic declaration changes the rendering'),
+    'var-inherit-on-root-typeerror': (replay_var_root_inherit, '582f36b',
+                                      'html{--a:inherit;width:var(--a)} raises or does not render like '
+                                      'html{width:inherit}'),
+    'var-shorthand-partially-applied': (replay_var_shorthand_partial, 'f9155ce',
+                                        'p{margin:0;--a:7px red;margin:var(--a)} applies margin-top only instead of '
+                                        'dropping the declaration like margin:7px red'),
+    'flex-float-zero-as-basis': (replay_flex_float_zero, '6a44d73', 'flex: 0.0 does not expand like flex: 0'),
+    'font-face-src-format-indexerror': (lambda: render_raises(
+        '@font-face { font-family: x; src: format("woff") }', 'IndexError'), 'be7a07b',
+        '@font-face { src: format("woff") } raises IndexError in the src descriptor'),
+    'counter-style-system-empty-indexerror': (lambda: render_raises('@counter-style a { system: ; }', 'IndexError'),
+                                              'd71ddd0', '@counter-style a { system: ; } raises IndexError'),
+    'var-sibling-function-typeerror': (lambda: render_raises(
+        'p{--c:red;background-image:linear-gradient(var(--c), rgb(0,0,0))}', 'TypeError'), '187ca26',
+        'linear-gradient(var(--c), rgb(0,0,0)) raises TypeError in resolve_var'),
+    'font-shorthand-indexerror': (lambda: render_raises('p{font:normal}', 'IndexError'), 'daf964a',
+                                  'font: normal raises IndexError in expand_font'),
+    'font-shorthand-slash-indexerror': (lambda: render_raises('p{font:10px /}', 'IndexError'), '5e6ab3a',
+                                        'font: 10px / raises IndexError in expand_font'),
+    'grid-template-empty-tracks': (lambda: render_raises('p{grid-template:/ a}', 'IndexError') or
+                                   render_raises('p{grid:a /}', 'IndexError'), 'd79bf98',
+                                   'grid-template: / a raises IndexError in grid_template'),
+    'attr-image-assert': (lambda: render_raises('p{background-image:attr(x url)}', 'AssertionError'), 'fd4c3d7',
+                          'background-image: attr(x url) fails an assert in get_image'),
+}
+
+
+def sec_regressions(run):
+    """Corpus first: the inputs of the repaired findings, on the real code."""
+    sec = run.section('regressions', 'the committed input of every repaired finding of this property (fixed: lines of '
+                      'known_findings.txt, corpus/C07) replayed on the real code: the defect must be gone (echo); '
+                      'non-trivial = all')
+    for fid, (fn, commit, what) in REGRESSIONS.items():
+        try:
+            back = bool(fn())
+        except Exception:  # noqa: BLE001 - a replay that cannot run counts as the defect being back
+            back = True
+        sec.add(sx.line('echo', 'fixed'), 'regressed' if back else 'fixed',
+                meta={'regression': fid, 'commit': commit, 'what': what}, tags=['fixed' if not back else 'regressed'])
+
+
+def judge_regression(meta):
+    fn, commit, what = REGRESSIONS[meta['regression']]
+    try:
+        back = bool(fn())
+    except Exception as exc:  # noqa: BLE001
+        return f'replay of the repaired finding {meta["regression"]} raised {type(exc).__name__}'
+    if back:
+        return f'the defect repaired by {commit} is back ({meta["regression"]}): {what}'
+    return None
 
 
 # ------------------------------------------------------------------------------------------ judging
@@ -2600,8 +3051,8 @@ def judge_reference(key, tokens, css):
     """The registered expander against an independent statement of the CSS grammar of the shorthand."""
     if key not in REFERENCES or real.head_of(tokens) != 'plain':
         return None
-    if key == 'flex' and any(t.type == 'number' and t.value == 0 and t.int_value != 0 for t in tokens):
-        return None      # known finding flex-float-zero-as-basis (`0.0`, `1e-999`)
+    if len(tokens) > 1 and any(t.type == 'ident' and t.lower_value in ('inherit', 'initial') for t in tokens):
+        return None      # known finding css-wide-keyword-as-ident (`grid-area: inherit / a`)
     try:
         want = REFERENCES[key](tokens) if key in ('flex', 'font') else REFERENCES[key](key, tokens)
     except Exception:  # noqa: BLE001 - a helper validator crashed: not this oracle's business
@@ -2713,10 +3164,20 @@ def flat_text(tokens):
 
 
 def judge_var(env_texts, token_text):
-    """resolve_var against an independent textual substitution (string level, then re-tokenised).  Only tokens
-    whose var() are all well formed, with comma-free fallbacks (known finding), are judged."""
+    """resolve_var never raises (cyclic custom properties included); and against an independent textual
+    substitution (string level, then re-tokenised): only tokens whose var() are all well formed, with comma-free
+    fallbacks (known finding), over acyclic properties, are compared."""
     import re
+    from weasyprint.css import resolve_var
     style, _ = real_style(env_texts)
+    out = []
+    for tok in tokens_of(token_text):
+        try:
+            resolved = resolve_var(style, tok, None)
+        except Exception as exc:  # noqa: BLE001 - RecursionError included: cycles are guarded since 2bffab3
+            return (f'resolve_var raised {type(exc).__name__} on `{token_text}` with custom properties {env_texts}: '
+                    f'a stylesheet aborts rendering')
+        out.extend([tok] if resolved is None else resolved)
     texts = [token_text] + [v for v in env_texts.values()]
     for text in texts:
         if re.search(r',\s*\)|,\s*,|\(\s*,|^\s*,|,\s*$', text):
@@ -2729,20 +3190,10 @@ def judge_var(env_texts, token_text):
         for m in re.finditer(WELL_FORMED_VAR, text, flags=re.I):
             if m.group(2) and ',' in m.group(2):
                 return None  # known finding var-fallback-commas-dropped
-    out = []
-    for tok in tokens_of(token_text):
-        try:
-            from weasyprint.css import resolve_var
-            resolved = resolve_var(style, tok, None)
-        except RecursionError:
-            return None      # known finding var-self-cycle-recursion
-        except Exception as exc:  # noqa: BLE001
-            return f'resolve_var raised {type(exc).__name__} on `{token_text}` with {env_texts}'
-        out.extend([tok] if resolved is None else resolved)
     env_tokens = {k: tokens_of(v) for k, v in env_texts.items()}
     want = reference_substitution(tokens_of(token_text), env_tokens, 0)
     if want is None:
-        return None
+        return None          # cyclic custom properties: textual substitution has no meaning
     if flat_text(out) != want:
         return (f'`{token_text}` with {env_texts} resolves to `{flat_text(out)}`, textual substitution gives '
                 f'`{want}`')
@@ -2787,23 +3238,32 @@ def reference_substitution(tokens, env, depth):
 
 class C07(PropCheck):
     id = 'C07'
-    extractors = (c07_tables.generate,)
+    extractors = (c07_tables.generate, c07_numeric.generate)
     modules = ('WpModel.Props.C07', 'WpModel.Props.C07Expanders', 'WpModel.Props.C07Var', 'WpModel.Props.C07Sheet',
-               'WpModel.Props.C07Keywords', 'WpModel.Props.C07Descriptors', 'WpModel.Witness.C07')
+               'WpModel.Props.C07Keywords', 'WpModel.Props.C07Descriptors', 'WpModel.Props.C07Numeric',
+               'WpModel.Witness.C07')
     trusted_base = (
-        'modelled, not verified: preprocess_declarations (loop skeleton), generic_expander, expand_four_sides, '
-        'border_radius, expand_border(_side), expand_list_style and nine small expanders, validate_non_shorthand '
-        '(skeleton), parse_function / check_var_function / resolve_var, computed_values.length',
-        'the per-property validators (~2000 lines) are NOT modelled: the model takes their answers per token from the '
-        'real functions; that they return or raise InvalidValues is checked at run time only (funnel section)',
+        'modelled, not verified: preprocess_declarations (loop skeleton), preprocess_descriptors, generic_expander, '
+        'expand_four_sides, border_radius, expand_border(_side), expand_list_style and the generators of all other '
+        'registered expanders, validate_non_shorthand (skeleton), PendingExpander.validate, Pending.solve (state '
+        'machine), the value selection of ComputedStyle.__missing__, parse_function / check_var_function / resolve_var '
+        '(with its seen tuple), computed_values.length, get_length, get_resolution, the numeric single-token validators '
+        '(clause tables regenerated by AST)',
+        'the other per-property validators (~1900 lines) are NOT modelled: the model takes their answers per token '
+        'from the real functions; that they return or raise InvalidValues is checked at run time only (funnel section)',
         'tinycss2 (tokeniser, color4.parse_color, serialisation) is assumed',
+        'py/extract/c07_numeric.py (AST subset of the numeric validators; a function outside the subset is listed as not '
+        'mirrored, never guessed)',
     )
     assumptions = (
         'a validator either returns or raises InvalidValues (violated by the listed known findings)',
-        'Python recursion depth is modelled by fuel: the model answers RecursionError exactly when its fuel runs out',
+        'Python recursion depth is modelled by fuel: the model answers RecursionError exactly when its fuel runs out '
+        '(never on the generated inputs since the cycle guard of 2bffab3)',
+        'an element has finitely many custom properties (hypothesis of resolve_var_terminates)',
     )
 
     EXPECTED_TAGS = {
+        'regressions': ['fixed'],
         'registry': ['skip', 'kept', 'rewritten'],
         'funnel': ['all-dropped', 'some-kept'],
         'funnel-neighbours': ['singletons', 'prelude'],
@@ -2821,12 +3281,12 @@ class C07(PropCheck):
                           ['place-content:invalid', 'place-items:invalid', 'place-self:invalid'],
         'border-image': ['border-image:ok', 'border-image:invalid', 'mask-border:ok', 'mask-border:invalid'],
         'background': ['ok', 'invalid', 'layers1', 'layers2', 'layers3'],
-        'pending-expander': ['ok', 'invalid', 'partially-applied'],
+        'pending-expander': ['ok', 'invalid', 'all-refused'],
         'validate-non-shorthand': ['ok', 'invalid', 'err:KeyError'],
         'get-length': ['number', 'dimension', 'percentage', 'accepted', 'rejected'],
         'length-pipeline': ['rejected', 'dim'],
-        'computed-pending': list(PENDING_CASES) + ['inherited', 'not-inherited', 'specified', 'parent', 'initial',
-                                                   'err'],
+        'computed-pending': list(PENDING_CASES) + ['inherited', 'not-inherited', 'specified', 'parent', 'initial'],
+        'pending-solve': ['valid-after-invalid', 'shorthand', 'longhand', 'warned'],
         'sheet-funnel': ['probe-imported', 'probe-ignored', 'rule:no-content', 'rule:font-face', 'rule:other-at',
                          'rule:counter-style-ok', 'rule:counter-style-bad-name', 'rule:style-bad-selector',
                          'rule:style-no-declaration', 'rule:style-unknown-pseudo', 'rule:style-ok',
@@ -2834,14 +3294,17 @@ class C07(PropCheck):
                          'rule:media-match', 'rule:media-no-match', 'rule:page-bad-selector', 'rule:page-ok',
                          'rule:page-margin-rule'],
         'keyword-validators': ['single', 'comma-list', 'ok', 'invalid'],
+        'numeric-validators': ['int', 'kw', 'num', 'dim', 'invalid', 'tokens1', 'tokens2', 'resolution'],
         'descriptor-funnel': ['font-face', 'counter-style', 'kept', 'all-dropped', 'font-variant:ok',
                               'font-variant:invalid'],
-        'var': ['acyclic-env', 'cyclic-env', 'check-var', 'parse-function', 'none', 'ok', 'err:RecursionError'],
-        'documents': ['invalid-vanish', 'units', 'var', 'var-invalid', 'unit-spelling:kept', 'unit-spelling:dropped'],
+        'var': ['acyclic-env', 'cyclic-env', 'check-var', 'parse-function', 'none', 'ok', 'cyclic-resolved'],
+        'documents': ['invalid-vanish', 'units', 'var', 'var-invalid', 'unit-spelling:kept', 'unit-spelling:dropped',
+                      'var-shared', 'var-shared:valid-after-invalid'],
     }
 
     def correspondence(self, run):
         docs.quiet()
+        sec_regressions(run)
         sec_units(run)
         sec_registry(run)
         sec_funnel(run)
@@ -2858,8 +3321,10 @@ class C07(PropCheck):
         sec_vns(run)
         sec_lengths(run)
         sec_pending(run)
+        sec_pending_solve(run)
         sec_sheet(run)
         sec_keywords(run)
+        sec_numeric(run)
         sec_descriptors(run)
         sec_var(run)
         sec_docs(run)
@@ -2879,6 +3344,8 @@ class C07(PropCheck):
 
     def judge(self, d):
         section, meta = d['section'], d.get('meta') or {}
+        if section == 'regressions':
+            return judge_regression(meta)
         if section in ('funnel', 'funnel-neighbours'):
             return judge_funnel_text(meta['css'])
         if section in ('generic-expander', 'four-sides', 'border-side', 'small-expanders'):
@@ -2889,6 +3356,8 @@ class C07(PropCheck):
             return judge_expander('list-style', meta['css'])
         if section == 'units':
             return judge_units()
+        if section == 'numeric-validators':
+            return judge_numeric(meta['name'], meta['css'])
         if section == 'descriptor-funnel' and 'rule' in meta:
             return judge_descriptors(meta)
         if section == 'sheet-funnel':
@@ -2899,6 +3368,8 @@ class C07(PropCheck):
             return judge_length_declaration('width', meta['token'])
         if section == 'computed-pending':
             return judge_pending(meta)
+        if section == 'pending-solve':
+            return judge_pending_solve(meta)
         if section == 'validate-non-shorthand':
             _, _, _, expanders, properties = real.mods()
             name = meta.get('name')
@@ -2957,6 +3428,13 @@ def judge_document(meta):
             return (f'`{meta["sel"]}{{{meta["prop"]}: var(--v)}}` with `--v: {meta["invalid"]}` (parents have '
                     f'{meta["prop"]}: {meta["valid"]}) renders differently from the textual substitution '
                     f'`{meta["prop"]}: {meta["invalid"]}`, which is dropped')
+    elif kind == 'var-shared':
+        a, _ = render_fp(meta['literal'], SHARED_BODY)
+        b, exc = render_fp(meta['var'], SHARED_BODY)
+        if a != b and not known_crash(exc):
+            return (f'`.t{{{meta["prop"]}: var(--v)}}` over four elements with --v = {meta["values"]} renders differently '
+                    f'from the literal declarations `#id{{{meta["prop"]}: <its own value>}}` ({b} vs {a}): var() is not '
+                    f'the textual substitution of each element\'s own value')
     elif kind == 'shorthand':
         sel, pre = meta.get('sel', '.p'), meta.get('pre', '')
         a, _ = render_fp(f'{PARENTS_CSS}{sel}{{{pre}{meta["key"]}: {meta["css"]}}}')
@@ -3053,6 +3531,13 @@ def search(run, failures):
     what = judge_units()
     if add(what, {'units': True}, 'units'):
         return found
+    # numeric ranges against the CSS grammar (a broken range theorem of Props/C07Numeric has its input here)
+    for name in CSS_NUMERIC_SPEC:
+        for text in NUMERIC_TEXTS:
+            run.search_stats['evaluations'] += 1
+            if add(judge_numeric(name, text), {'section': 'numeric-validators', 'meta': {'name': name, 'css': text}},
+                   f'numeric:{name}'):
+                return found
     for key in ORDER_FREE:
         longhand_names = [n for n, _ in real.outcome_list(
             lambda: real.mods()[3].EXPANDERS[key](tuple(tokens_of('inherit')), key, BASE_URL))[1]]
@@ -3118,33 +3603,47 @@ MANIFEST = {
     'design_ref': 'DESIGN.md §4 C07',
     'technique': 'Lean 4 theorems over hand-written models of the declaration funnel, the descriptor funnel, the '
                  'rule-level funnel of preprocess_stylesheet, generic_expander and the generator of every one of the 42 '
-                 'registered shorthand expanders, validate_non_shorthand, PendingExpander, the value selection of '
-                 'ComputedStyle.__missing__, get_length / length with the unit table (exact rationals regenerated from '
-                 'css/utils.py), the keyword-only validators (table regenerated by AST) and var() resolution; '
-                 'registries (EXPANDERS, generic_expander names, PROPERTIES, DESCRIPTORS, INHERITED, NOT_PRINT_MEDIA, '
-                 'prefixes) regenerated from the source and the runtime each run; executable correspondence with the '
-                 'real functions on every registered property, shorthand and descriptor, plus rendered metamorphic '
-                 'document pairs with an invalid declaration of every registered name injected',
+                 'registered shorthand expanders, validate_non_shorthand, PendingExpander.validate, the Pending.solve '
+                 'state machine, the value selection of ComputedStyle.__missing__, get_length / length with the unit '
+                 'table (exact rationals regenerated from css/utils.py), get_resolution, the keyword-only validators '
+                 '(table regenerated by AST), the numeric single-token validators (clause tables with every bound '
+                 'regenerated by AST) and var() resolution with its cycle guard; registries (EXPANDERS, generic_expander '
+                 'names, PROPERTIES, DESCRIPTORS, INHERITED, NOT_PRINT_MEDIA, prefixes) regenerated from the source and '
+                 'the runtime each run; executable correspondence with the real functions on every registered property, '
+                 'shorthand and descriptor, on real Pending objects solved repeatedly, plus rendered metamorphic '
+                 'document pairs (an invalid declaration of every registered name injected; one var() rule shared by '
+                 'several elements); the inputs of all repaired findings replayed first',
     'text': 'Proved for all inputs on the models: dropped declarations / descriptors / rules do not change the output '
             'of their funnel, outputs concatenate (neighbour independence), the funnels only propagate '
-            'non-InvalidValues exceptions of validators; the 1/2/3/4-value side and corner mappings; a generic '
-            'shorthand yields exactly its declared longhands once each in order, omitted ones reset to initial, a '
-            'duplicate is invalid, inherit/initial/var() fan out; every registered expander is modelled and every '
-            'longhand it can name is registered (decide on generated tables); order independence of border-side '
-            'components, of the two columns / flex-flow components, of the optional font prefix, of the flex basis; '
-            'border = four border-sides; list-style none disambiguation; flex, line-clamp, grid-row/column/area, '
-            'grid-template characterisations; the keywords expanders synthesise are valid for their target longhand; '
-            '1in = 96px = 72pt = 6pc = 2.54cm = 25.4mm = 101.6q for every rational length, equal absolute lengths '
-            'compute equal, an accepted length always computes to px; a var() value invalid after substitution '
-            'behaves as an absent declaration; var(): resolve_var terminates on acyclic custom properties and returns '
-            'the textual substitution for well-formed var() with comma-free fallbacks (var_subst_total); a shorthand '
-            'with var() gives each longhand the value of the substituted shorthand when that expansion succeeds.',
-    'note': 'Trusted: Lean kernel, py/extract/c07_tables.py, the harness abstraction of tokens to the answers of the '
-            'real single-token / slice validators. Partial: of the 133 validator functions only the 50 keyword-only '
-            'properties, get_length and border_corner_radius are mirrored, the others are tied by the run-time funnel '
-            'checks; var() inside ( ) [ ] blocks and inside functions with empty arguments is invisible to the code and '
-            'the model alike; CSS nesting (style rules inside style rules) is outside the rule-level model. Known '
-            'findings: var() self-cycle (RecursionError), commas dropped from var() fallbacks, inherit out of a var() '
-            'on the root (TypeError), a shorthand invalid after substitution applied in part, flex: 0.0 read as a '
-            'basis, @font-face src: format() and @counter-style system: (empty) IndexError.',
+            'non-InvalidValues exceptions of validators, a descriptor without value never reaches its validator; the '
+            '1/2/3/4-value side and corner mappings; a generic shorthand yields exactly its declared longhands once each '
+            'in order, omitted ones reset to initial, a duplicate is invalid, inherit/initial/var() fan out; every '
+            'registered expander is modelled and every longhand it can name is registered (decide on generated tables); '
+            'order independence of border-side components, of the two columns / flex-flow components, of the optional '
+            'font prefix, of the flex basis; border = four border-sides; list-style none disambiguation; flex (any '
+            'spelling of the unitless zero is a factor), line-clamp, grid-row/column/area, grid-template '
+            'characterisations; the keywords expanders synthesise are valid for their target longhand; the integers '
+            'accepted by orphans, widows, column-count, max-lines, bookmark-level are exactly those >= 1 (the hypothesis '
+            'of the pagination theorems), tab-size >= 0, z-index / order any, font-weight the nine hundreds, and an '
+            'accepted number or keyword is the one written; 1in = 96px = 72pt = 6pc = 2.54cm = 25.4mm = 101.6q for '
+            'every rational length, equal absolute lengths compute equal, an accepted length always computes to px; a '
+            'var() value invalid after substitution behaves as an absent declaration, a valid / initial / inherit one as '
+            'the literal declaration on every element, the root included; what one element gets out of a shared Pending '
+            'object is independent of the other elements (solve_seq_independent), one warning per declaration; '
+            'resolve_var terminates on every finite set of custom properties, cyclic or not (cycle guard), a property '
+            'met again yields its fallback; on acyclic properties it returns the textual substitution for well-formed '
+            'var() with comma-free fallbacks (var_subst_total); a shorthand with var() gives each longhand exactly what '
+            'the expansion of the substituted shorthand, consumed as a whole, gives it (all or nothing).',
+    'note': 'Trusted: Lean kernel, py/extract/c07_tables.py and c07_numeric.py, the harness abstraction of tokens to '
+            'the answers of the real single-token / slice validators. Partial: of the 133 validator functions only the 50 '
+            'keyword-only properties, the 12 numeric single-token properties, get_length, get_resolution and '
+            'border_corner_radius are mirrored, the others are tied by the run-time funnel checks; var() inside ( ) [ ] '
+            'blocks and inside functions with empty arguments is invisible to the code and the model alike; on cyclic '
+            'custom properties the code substitutes up to the repeated property (CSS makes the whole cycle invalid at '
+            'computed-value time) — the model mirrors the code; CSS nesting (style rules inside style rules) is outside '
+            'the rule-level model. Known findings: commas dropped from var() fallbacks, negative flex-grow / flex-shrink '
+            'accepted, image-resolution: 0dppx accepted (ZeroDivisionError with a raster image). Repaired since round '
+            '2 (replayed as regressions): var() self-cycle, inherit out of a var() on the root, a shorthand invalid '
+            'after substitution applied in part, flex: 0.0 read as a basis, @font-face src: format() and '
+            '@counter-style system: (empty) IndexError.',
 }
